@@ -220,17 +220,21 @@ impl<C: ConfigurationAccess> PciRoot<C> {
         device_function: DeviceFunction,
         bar_index: u8,
     ) -> Result<Option<BarInfo>, PciError> {
+        let bar_orig = self
+            .configuration_access
+            .read_word(device_function, BAR0_OFFSET + 4 * bar_index);
+        let io_space = bar_orig & 0x00000001 == 0x00000001;
+        if bar_orig & 0b111 == 0b100 && bar_index >= 5 {
+            // A 64-bit BAR can't start in the last slot. Fail before modifying anything.
+            return Err(PciError::InvalidBarType);
+        }
+
         // Disable address decoding while sizing the BAR.
         let (_status, command_orig) = self.get_status_command(device_function);
         let command_disable_decode = command_orig & !(Command::IO_SPACE | Command::MEMORY_SPACE);
         if command_disable_decode != command_orig {
             self.set_command(device_function, command_disable_decode);
         }
-
-        let bar_orig = self
-            .configuration_access
-            .read_word(device_function, BAR0_OFFSET + 4 * bar_index);
-        let io_space = bar_orig & 0x00000001 == 0x00000001;
 
         // Get the size of the BAR.
         self.configuration_access.write_word(
@@ -245,9 +249,6 @@ impl<C: ConfigurationAccess> PciRoot<C> {
 
         // Read the upper 32 bits of 64-bit memory BARs.
         let (address_top, size_top) = if bar_orig & 0b111 == 0b100 {
-            if bar_index >= 5 {
-                return Err(PciError::InvalidBarType);
-            }
             let bar_top_orig = self
                 .configuration_access
                 .read_word(device_function, BAR0_OFFSET + 4 * (bar_index + 1));
